@@ -3,6 +3,15 @@ import json
 import vlib
 from vlib import vh_batch, drv_batch, enc
 
+MANIFEST = dict(
+    text="Lean theorems (option_overrides, header_decides, neither_is_generic, unknown_header_is_error, targetFromStr_ok_iff, "
+         "option_eq_header) over a model of Target::from_str and the dialect decision of compile_query, with the dialect enumeration "
+         "regenerated from dialect.rs on every run; tied to the code by running the full option x header matrix and name mutations "
+         "through the real compiler and the model.",
+    note="the theorem option_eq_header speaks about any SQL generator that is a function of (RQ, chosen dialect); that the real "
+         "generator reads the header only through this decision is validated by the exhaustive matrix run, not proved.",
+    technique="Lean 4 proof over regenerated dialect table + exhaustive option x header correspondence", ref="4/C18")
+
 DIALECT_PROGRAMS = [
     "from t | select {a, b} | take 3",
     "from t | take 2..5 | sort a",
